@@ -53,6 +53,15 @@ def n_open(s):
     return sum(1 for t in s.kern.transports if not t.is_closing())
 
 
+def leaked_sockets(s):
+    """descriptor level: after garbage collection every open socket must belong to an open transport"""
+    import gc
+    gc.collect(1)
+    if len(s.kern.socks) - n_open(s) > 0:
+        gc.collect()
+    return len(s.kern.socks) - n_open(s)
+
+
 def run_history(cfg, hist, final=True):
     s = Session(cfg, peer=WatchPeer(cfg['transport'], cfg['T'], None))
     s.peer.watch = []
@@ -103,6 +112,10 @@ def run_history(cfg, hist, final=True):
                 last_ok_fd = None
             if obs.result[0] == 'hang':
                 vio.append(('terminates', obs.result[1]))
+        if a in ('close', 'newloop', 'idle') or i == len(hist) - 1:
+            k = leaked_sockets(s)
+            if k > 0:
+                vio.append(('no-socket-leak', f'{k} socket(s) open without an open transport after {name}'))
     f = s.fp(extra=(last_ok_fd is not None,))
     if final:
         s.peer.watch.clear()
@@ -116,6 +129,9 @@ def run_history(cfg, hist, final=True):
         s.close()
         if n_open(s) != 0:
             vio.append(('closed-after-close()', f'{n_open(s)} open after final close()'))
+        k = leaked_sockets(s)
+        if k > 0:
+            vio.append(('no-socket-leak', f'{k} socket(s) still open after the final close()'))
     return vio, f, s
 
 
